@@ -544,6 +544,255 @@ def gen_move(rng, idx, salt=0):
                            kinds=sorted(kinds) or ["single-carrier"])
 
 
+def gen_oversize(rng, idx):
+    """One carrier's OVERSIZED packet must not affect the other sessions. 1..2 sessions transfer; in mid-transfer some carrier
+    (valid token) delivers ONE encapsulated data chunk of 1501..65535 bytes - legal in the encapsulation, longer than the
+    1500-byte buffer kcp-go's listener reads into (QueuePacketConn.ReadFrom truncates it, KCP discards the stump): either a
+    carrier of its own, with a fresh ClientID, or the carrier of one of the sessions. Afterwards the sessions finish their
+    transfer in both directions, and a NEW session that starts only then is accepted and read to the end.
+    These scenarios run against a server of their own (second c05bb process), so that whatever the packet does is
+    attributed to it."""
+    sid_hex = scen_id(idx, 0xb5)
+    nsess = rng.randrange(1, 3)
+    L = rng.choice([1501, 1501, 1502, 1600, 2000, 4096, 8192, 16384, 65535])
+    own = rng.random() < 0.4          # on the carrier of session 0 (else: a carrier and ClientID of its own)
+    S = []
+    for j in range(nsess + 1):        # the last one starts after the oversized packet
+        cid = "%016x" % rng.getrandbits(64)
+        conv = rng.getrandbits(32) | 0x01000000
+        app = bytes.fromhex(sid_hex) + bytes([j]) + bytes(rng.randrange(256) for _ in range(rng.choice([60, 200, 500])))
+        stream = smux_frame(0, 3) + smux_frame(2, 3, app[:8]) + b"".join(smux_frame(2, 3, app[i:i + 64]) for i in range(8, len(app), 64))
+        n0 = 24
+        segs = [kcp_seg(conv, 0, stream[:n0])] + [kcp_seg(conv, 1 + k, stream[i:i + 48]) for k, i in enumerate(range(n0, len(stream), 48))]
+        down = bytes(rng.randrange(256) for _ in range(rng.choice([1, 40, 300])))
+        S.append(dict(j=j, cid=cid, conv=conv, app=app, segs=segs, down=down, carriers=[]))
+    ops, mops = ["i" + sid_hex], []
+    now = [rng.choice([0, 7, 1700000000000])]
+    ncar = [0]
+
+    def send(i, hexbytes, exp=""):
+        ops.append("r%d:x%s%s" % (i, hexbytes, exp))
+        for q in range(0, len(hexbytes), 800):
+            now[0] += rng.choice([0, 1])
+            mops.append("r%d:x%s:%d" % (i, hexbytes[q:q + 800], now[0]))
+
+    def carrier(cid):
+        i = ncar[0]
+        ncar[0] += 1
+        ops.append("n"); mops.append("n")
+        send(i, TOKEN + cid)
+        return i
+
+    def seghex(seg):
+        return prefix(len(seg)) + seg.hex()
+
+    for k, s_ in enumerate(S[:nsess]):
+        i = carrier(s_["cid"])
+        s_["carriers"].append(i)
+        half = max(1, len(s_["segs"]) // 2)
+        s_["half"] = half
+        send(i, "".join(seghex(x) for x in s_["segs"][:half]), "@a%d" % (k + 1))
+        ops.append("w%d:x%s" % (s_["j"], s_["down"][:len(s_["down"]) // 2].hex()))
+    # ---- the oversized packet: a KCP push header whose length field claims the whole chunk, then filler
+    if own:
+        oc, oconv, osn = S[0]["carriers"][0], S[0]["conv"], 0x7fff0000 + rng.randrange(1000)
+        ocid = S[0]["cid"]
+    else:
+        ocid = "%016x" % rng.getrandbits(64)
+        oc, oconv, osn = carrier(ocid), rng.getrandbits(32) | 0x02000000, 0
+    big = kcp_seg(oconv, osn, bytes((7 * x + idx) & 255 for x in range(L - 24)))
+    assert len(big) == L
+    send(oc, seghex(big))
+    ops.append("g30")      # (no expectation to wait for: the packet must have NO visible effect)
+    # ---- afterwards: the sessions finish, a new one starts and finishes
+    for s_ in S[:nsess]:
+        i = s_["carriers"][0]
+        send(i, "".join(seghex(x) for x in s_["segs"][s_["half"]:]))
+        ops.append("w%d:x%s" % (s_["j"], s_["down"][len(s_["down"]) // 2:].hex()))
+    late = S[nsess]
+    i = carrier(late["cid"])
+    late["carriers"].append(i)
+    send(i, "".join(seghex(x) for x in late["segs"]), "@a%d" % (nsess + 1))
+    ops.append("w%d:x%s" % (late["j"], late["down"].hex()))
+    total = sum(len(s_["app"]) - 5 for s_ in S)
+    fin = "z@a%d@t%d" % (nsess + 1, total)
+    for s_ in S:
+        fin += "@e%s=%d" % ("+".join(map(str, s_["carriers"])), len(s_["down"]))
+    ops.append(fin)
+    model = L <= 2000
+    return ops, mops, dict(sid=sid_hex, ncar=ncar[0], tokenless=[], model=model, oversize=dict(L=L, own=own, carrier=oc, cid=ocid),
+                           sessions=[dict(j=s_["j"], cid=s_["cid"], conv=s_["conv"], app=s_["app"].hex(), down=s_["down"].hex(),
+                                          carriers=s_["carriers"], last=s_["carriers"][-1]) for s_ in S],
+                           kinds=["oversized-packet-" + ("own-carrier" if own else "other-clientid") + ("" if model else "-implementation-only")])
+
+
+# ------------------------------------------------------------------ failing downstream writes (Model/CarrierFail.v)
+
+def frame(p):
+    return prefix(len(p) // 2) + p
+
+
+def gen_fail(rng, idx):
+    """A FAILING downstream write on one carrier, followed by carriers of OTHER ClientIDs (and a new carrier of the same
+    one) receiving packets. turbotunnelMode over driver-made connections whose Write fails at a chosen byte (in-package
+    driver op frun). At most one carrier per ClientID is open at a time and every effect is waited for, so the case is
+    deterministic: every byte written to every carrier is predicted by the model (Model/CarrierFail.v frun).
+    Returns impl ops, model ops, meta."""
+    ncid = rng.randrange(2, 4)
+    cids = ["%016x" % rng.getrandbits(64) for _ in range(ncid)]
+    if rng.random() < 0.2:
+        cids[1] = cids[0][:14] + "%02x" % ((int(cids[0][14:], 16) + 1) & 255)
+    ops, mops = [], []
+    carriers = []                    # dict(cid, kind, open, failed)
+    written = {c: [] for c in cids}
+    queued = {c: [] for c in cids}   # accepted, not yet taken by a carrier
+    wire = {}                        # carrier -> hex expected on its connection
+    lost = []
+    pk = [0]
+    big = [False]
+
+    def newpkt():
+        pk[0] += 1
+        n = rng.choice([0, 1, 3, 20, 40, 62, 63, 64, 70, 200, 1400, 5000])
+        if n > 1000:
+            # at most one big packet per case (5000: more than bufio's buffer, the frame is written in two pieces)
+            n = n if pk[0] >= 0 and not big[0] else 30
+            big[0] = True
+        return ("%04x%04x" % ((0xf000 | idx) & 0xffff, pk[0])) + "".join("%02x" % rng.randrange(256) for _ in range(n))
+
+    def cur(c):
+        l = [i for i, k in enumerate(carriers) if k["cid"] == c and k["open"]]
+        return l[0] if l else None
+
+    def drain(c, i):
+        # carrier i (the only open one of c) takes everything queued for c
+        while queued[c]:
+            p = queued[c].pop(0)
+            mops.append("s%d" % i)
+            wire[i] = wire.get(i, "") + frame(p)
+        if wire.get(i):
+            ops[-1] += "@d%d=%d" % (i, len(wire[i]) // 2)
+
+    def attach(c):
+        i = len(carriers)
+        carriers.append(dict(cid=c, kind="good", open=True, failed=False, sent=[]))
+        ops.append("n"); mops.append("n")
+        hdr = TOKEN + c
+        ops.append("r%d:x%s" % (i, hdr)); mops.append("r%d:x%s" % (i, hdr))
+        drain(c, i)
+        return i
+
+    def write(c):
+        p = newpkt()
+        written[c].append(p); queued[c].append(p)
+        ops.append("w:x%s:x%s" % (c, p)); mops.append("w:x%s:x%s" % (c, p))
+        i = cur(c)
+        if i is not None:
+            drain(c, i)
+        return p
+
+    def fail(c):
+        """the next write(s) on c's open carrier: `good` packets go through, the one after them fails after n bytes"""
+        i = cur(c)
+        good = rng.choice([0, 0, 1, 2])
+        ps = [newpkt() for _ in range(good + 1)]
+        fr = frame(ps[-1])
+        n = rng.choice([0, 0, 1, 2, 3, len(fr) // 2 - 1, rng.randrange(0, len(fr) // 2)])
+        budget = sum(len(frame(p)) // 2 for p in ps[:-1]) + n
+        ops.append("F%d:%d" % (i, budget))
+        for j, p in enumerate(ps):
+            written[c].append(p)
+            ops.append("w:x%s:x%s" % (c, p)); mops.append("w:x%s:x%s" % (c, p))
+            if j < good:
+                mops.append("s%d" % i)
+                wire[i] = wire.get(i, "") + frame(p)
+                ops[-1] += "@d%d=%d" % (i, len(wire[i]) // 2)
+        mops.append("F%d:%d" % (i, n))
+        wire[i] = wire.get(i, "") + fr[:2 * n]
+        ops[-1] += "@k%d@d%d=%d" % (i, i, len(wire[i]) // 2)
+        carriers[i]["open"] = False
+        carriers[i]["failed"] = True
+        lost.append(ps[-1])
+
+    a, b = cids[0], cids[1]
+    attach(a)
+    for _ in range(rng.choice([0, 0, 1, 2])):
+        write(a)
+    early = rng.random() < 0.5
+    if early:
+        attach(b)
+        if rng.random() < 0.5:
+            write(b)
+    fail(a)
+    for _ in range(rng.choice([0, 1, 2])):
+        write(a)                                  # queued: a has no carrier now
+    if not early:
+        attach(b)
+    for _ in range(rng.randrange(1, 4)):
+        write(b)                                  # the next carrier to be written anything presented ANOTHER ClientID
+    for c in cids[2:]:
+        if rng.random() < 0.5:
+            write(c)
+        attach(c)
+        write(c)
+    if rng.random() < 0.7:
+        attach(a)                                 # a's next carrier: what was queued after the failure, not the lost packet
+        write(a)
+    if rng.random() < 0.4:
+        fail(b)
+        write(rng.choice(cids))
+        if rng.random() < 0.5:
+            attach(b)
+            write(b)
+    if rng.random() < 0.3:
+        c = rng.choice(cids)
+        i = cur(c)
+        if i is not None:
+            ops.append("c%d@k%d" % (i, i)); mops.append("c%d" % i)      # the peer closes an idle carrier
+            carriers[i]["open"] = False
+            write(c)
+    ops.append("z" + "".join("@k%d" % i for i, k in enumerate(carriers) if not k["open"]))
+    return ops, mops, dict(cids=cids, carriers=carriers, written=written, wire=wire, lost=lost)
+
+
+def check_fail(meta, d):
+    """the property on what each carrier's connection was written: whole frames of packets addressed to the ClientID the
+    carrier presented, then nothing - or, on a carrier whose write failed, the beginning of one more such frame"""
+    bad = []
+    seen = {}
+    for i, k in enumerate(meta["carriers"]):
+        st, w = d.get("k%d" % i, "open:x").split(":")
+        w = w[1:]
+        mine = meta["written"].get(k["cid"], [])
+        chunks, err = c09.py_decode(w)
+        for p in chunks:
+            if p not in mine:
+                owner = [cc for cc, l in meta["written"].items() if p in l]
+                bad.append(("downstream-wrong-session" if owner else "downstream-foreign-packet",
+                            "carrier %d (ClientID %s) was written packet %s.. addressed to %s%s" % (
+                                i, k["cid"], p[:16], owner[0] if owner else "nobody",
+                                " - the packet whose write had FAILED on another carrier" if p in meta["lost"] else "")))
+            seen[p] = seen.get(p, 0) + 1
+        whole = sum(len(frame(p)) for p in chunks)
+        rest = w[whole:]
+        if rest:
+            if not k["failed"]:
+                bad.append(("downstream-not-framed", "carrier %d downstream does not end at a chunk boundary (%s)" % (i, err)))
+            elif not any(frame(p).startswith(rest) for p in mine):
+                owner = [cc for cc, l in meta["written"].items() if any(frame(p).startswith(rest) for p in l)]
+                bad.append(("downstream-wrong-session" if owner else "downstream-foreign-packet",
+                            "carrier %d (ClientID %s), whose write failed, was written %d bytes that do not begin a packet addressed to it%s" % (
+                                i, k["cid"], len(rest) // 2, " (they begin a packet of %s)" % owner[0] if owner else "")))
+        want, _ = c09.py_decode(meta["wire"].get(i, ""))
+        if k["open"] and not bad and chunks != want and want[:len(chunks)] == chunks:
+            bad.append(("downstream-not-delivered", "carrier %d (the only open carrier of ClientID %s) should have been written %d packets, got %d" % (
+                i, k["cid"], len(want), len(chunks))))
+    for p, n in seen.items():
+        if n > 1:
+            bad.append(("downstream-duplicated", "packet %s.. was written to %d carriers" % (p[:16], n)))
+    return bad
+
+
 def gen_move_long(rng, idx, gap_ms=95000):
     """one session whose only carrier is cut in mid-transfer; NO carrier for longer than retention + sweep period (really
     waited for: thorough tier only); then a new carrier re-sends everything. The client map has forgotten the session
@@ -904,8 +1153,33 @@ def run(ctx):
         if rc != 0 or len(out) != len(lines):
             ctx.violation("driver-crash", "server carrier driver died rc=%s: %s" % (rc, err[-800:]), dict(stderr=err[-3000:]))
             return
+    # ---- concurrently with the rest: (a) oversized packets against a server of their own (second black-box process),
+    # (b) failing downstream writes (in-package driver, twice: as it comes, and one case after the other on ONE P)
+    import threading
+    over = [gen_oversize(ctx.rng, i) for i in range(8 if quick else 60)]
+    fails = [gen_fail(ctx.rng, i) for i in range(80 if quick else 800)] if exe else []
+    olines = ["carrierlayer move " + ",".join(ops) for ops, _, _ in over]
+    flines = ["carrierlayer frun " + ",".join(ops) for ops, _, _ in fails]
+    side = {}
+
+    def side_run(name, exe_, lines_, **kw):
+        side[name] = vlib.run_impl(exe_, lines_, **kw)
+    threads = [threading.Thread(target=side_run, args=("over", bb, olines), kwargs=dict(timeout=1800))]
+    if fails:
+        threads.append(threading.Thread(target=side_run, args=("fail", exe, flines),
+                                        kwargs=dict(args=["-test.run", "^TestVerifC05Driver$"], env=env, timeout=900)))
+        threads.append(threading.Thread(target=side_run, args=("fail1", exe, flines),
+                                        kwargs=dict(args=["-test.run", "^TestVerifC05Driver$"],
+                                                    env=dict(env, GOMAXPROCS="1", VERIF_C05_SERIAL="1"), timeout=900)))
+    for t in threads:
+        t.start()
+    xmlines = ["carrierlayer trun %d %s" % (RETENTION, ",".join(mops) if meta["model"] else "n") for _, mops, meta in over]
+    xmlines += ["carrierlayer frun " + ",".join(mops) for _, mops, _ in fails]
+    xmout = vlib.run_model(xmlines)
     blines = ["carrierlayer move " + ",".join(ops) for ops, _, _ in moves]
     rc, bout, err = vlib.run_impl(bb, blines, timeout=1800)
+    for t in threads:
+        t.join()
     if rc != 0 or len(bout) != len(blines):
         ctx.violation("driver-crash", "black-box server driver died rc=%s: %s" % (rc, err[-800:]), dict(stderr=err[-3000:]))
         return
@@ -1009,7 +1283,65 @@ def run(ctx):
             mst = md.get("k%d" % t["i"], "token::").split(":")[0]
             if t["must_close"] and (mst == "dead") != (ist == "closed") and not bad:
                 ctx.not_shown("correspondence carrierlayer (move): carrier %d: model %s, implementation %s: case=%s" % (t["i"], mst, ist, ml[:400]))
+    # ---- one carrier's oversized packet (own server): the other sessions go on, a new one is accepted
+    rc, oout, err = side["over"]
+    if rc != 0 or len(oout) != len(olines):
+        # the process that serves ONLY these scenarios died while the one serving all the others (same binary, same moment) did
+        # not: every scenario here contains an oversized packet, and every session in that process died with it
+        ctx.violation("oversized-packet-kills-other-sessions",
+                      "the server process that was delivered encapsulated packets of 1501..65535 bytes (one per scenario, valid token) DIED "
+                      "(rc=%s), and all sessions with it: %s" % (rc, err[-800:].replace("\n", " | ")),
+                      dict(case=olines[0][:20000], stderr=err[-3000:], driver="c05bb"))
+        oout = []
+    for (ops, mops, meta), line, o, ml, mo in zip(over, olines, oout, xmlines, xmout):
+        ctx.count(line, kind="move:" + "+".join(meta["kinds"]))
+        rep = dict(case=line[:20000], impl=o[:3000], model=mo[:3000], model_case=ml[:12000], driver="c05bb")
+        if o.startswith("!"):
+            ctx.violation("request-" + o.split(" ")[0].strip("!:"), "driver failure: " + o[:200], rep)
+            continue
+        d, md = parse_impl(o), parse_impl(mo)
+        bad, macc = check_move(meta, d, md)
+        ov = meta["oversize"]
+        if bad:
+            ctx.violation("oversized-packet-kills-other-sessions",
+                          "a carrier (valid token, ClientID %s%s) delivered ONE encapsulated packet of %d bytes - more than the 1500-byte "
+                          "buffer the KCP listener reads into - while %d session(s) were transferring; afterwards: %s" % (
+                              ov["cid"], ", the carrier of session 0" if ov["own"] else ", no session of its own", ov["L"],
+                              len(meta["sessions"]) - 1, "; ".join("[%s] %s" % (k, t) for k, t in bad[:3])), rep)
+            continue
+        if not meta["model"]:
+            continue
+        # the model's listener view: one connection per session, and one more for the oversized packet when it came under a
+        # ClientID of its own (its first 1500 bytes are input to a KCP that discards them)
+        want = len(meta["sessions"]) + (0 if ov["own"] else 1)
+        if macc != want:
+            ctx.not_shown("model: listener view has %d connections, expected %d (oversized packet): case=%s model=%s" % (macc, want, ml[:400], mo[:300]))
+    # ---- failing downstream writes
+    for name in ("fail", "fail1"):
+        if name not in side:
+            continue
+        rc, fout, err = side[name]
+        if rc != 0 or len(fout) != len(flines):
+            ctx.violation("driver-crash", "server carrier driver (failing writes, %s) died rc=%s: %s" % (name, rc, err[-800:]), dict(stderr=err[-3000:]))
+            continue
+        nd = 0
+        for (ops, mops, meta), line, o, ml, mo in zip(fails, flines, fout, xmlines[len(over):], xmout[len(over):]):
+            ctx.count(line, kind="failing-write" + ("" if name == "fail" else ":GOMAXPROCS=1,serial"))
+            rep = dict(case=line[:8000], impl=o[:3000], model=mo[:3000], model_case=ml[:8000], env=name)
+            if o.startswith("!"):
+                ctx.violation("request-" + o.split(" ")[0].strip("!:"), "driver failure: " + o[:200], rep)
+                continue
+            d, md = parse_impl(o), parse_impl(mo)
+            fbad = check_fail(meta, d)
+            for key, text in fbad:
+                ctx.violation(key, text, rep)
+            if not fbad and not fields_equal(meta, d, md):
+                nd += 1
+                if nd <= 3:
+                    ctx.not_shown("correspondence carrierlayer (failing writes): model and implementation disagree: case=%s impl=%s model=%s" % (
+                        ml[:500], o[:300], mo[:300]))
     sample = [(l, m) for l, m in zip(mlines, mout) if len(l) < 600][:20]
+    sample += [(l, m) for l, m in zip(xmlines[len(over):], xmout[len(over):]) if len(l) < 900][:6]
     sample += [(l, m) for l, m in zip(mlines[len(scen):], mout[len(scen):]) if len(l) < 900][:12]
     for i in vlib.coq_crosscheck(sample):
         ctx.not_shown("extraction cross-check differs on " + sample[i][0][:300])
@@ -1023,6 +1355,8 @@ def replay(ctx, doc):
         case = v["replay"].get("case")
         if not case:
             continue
+        if v["replay"].get("env") == "fail1":
+            env = dict(env, GOMAXPROCS="1", VERIF_C05_SERIAL="1")
         if case.startswith("carrierlayer move "):
             rc, out, err = vlib.run_impl(vlib.go_build("./zz_verif/c05bb"), [case])
         else:
